@@ -631,6 +631,10 @@ func SetPassthroughDial(f DialFunc) {
 	passDial.Store(&f)
 }
 
+// MapZero returns zero values of a map's key and value types (used to declare
+// per-loop variables for `for k, v := range m` under pre-1.22 semantics).
+func MapZero[K comparable, V any](m map[K]V) (k K, v V) { return }
+
 func MapKeys[K comparable, V any](site string, m map[K]V) []K {
 	keys := make([]K, 0, len(m))
 	for k := range m {
